@@ -65,7 +65,7 @@ def replay_instances(thorough):
         # observed addresses next to listen / NAT addresses: cap, duplicates against NAT and listen addresses
         ("obs", C(pool=("Lun",), natk=("Lpriv",), natc=("-", "Npub"), obsk=("Lpriv", "Ri2"), obsc=("e", "c", "n"), env=3), None),
         # every kind of listen address and NAT answer (unspecified, bare circuit, unresolvable, duplicates)
-        ("junk", C(pool=("Lun", "Lcirc", "Lpub"), init=("Lun6",), natk=("Lun",), natc=("-", "Nun", "Lpub"), obsk=("Lun6",),
+        ("junk", C(pool=("Lun", "Lcirc", "Lpub"), init=("Lun6",), natk=("Lun",), natc=("-", "Nun", "Npriv", "Lpub"), obsk=("Lun6",),
                    obsc=("e", "l"), env=3), None),
         # autonat v1: relay addresses iff private
         ("relay", C(init=("Lpriv", "Lpub"), relay=REL, reach=("public", "private"), env=3), None),
